@@ -527,6 +527,9 @@ def decompress_destripe_cbin(
             WIN, win, axes=(1,), direction="FFTW_BACKWARD", threads=4
         )
 
+        if first_s > 0 and first_s + SAMPLES_TAPER * 2 >= _sr.ns:
+            # the batch before this one already reaches the end of the recording: nothing is left for this worker
+            return
         fid = open(output_file, "r+b")
         if i_chunk == 0:
             fid.seek(offset)
